@@ -204,6 +204,20 @@ func (r *vfRun) expectPark(what, point string) bool {
 	r.rep.DriftNote("case %d: the deletion worker did not make the call that was due (%s), it went on to %s", r.caseNo, what, q.Point)
 	vfSkips++
 	pre := r.w.observe()
+	// KidsHandled (Deletion.tla StepKidsHandled): the children list the worker took for the deleted
+	// parent held kidsLeft bound children that were not yet deleted (live or queued - a child created
+	// while the parent was tombstoned is queued in the head storage only, nothing but this loop
+	// deletes it in this session); the specification has the worker stay on the parent until each
+	// of them is deleted. The worker provably left the parent (it came to the sentinel's call).
+	if r.wk.inKids && r.wk.kidsLeft > 0 && point == "ts" {
+		for n, o := range r.w.objs {
+			if o.Parent == r.wk.outer && r.wk.outer != "" && pre.Pset[n] && pre.Status[n] != "deleted" {
+				r.violate("child-not-processed:"+pre.Status[n],
+					fmt.Sprintf("the worker listed %d undeleted bound children of the deleted parent %s and left it without deleting child %s (status %s, stored %v)",
+						r.wk.kidsLeft, r.wk.outer, n, pre.Status[n], pre.Stored[n]))
+			}
+		}
+	}
 	r.wk = vfWorkerTrack{}
 	r.oracles("WorkerSkippedCall", "-", what, &pre, &pre)
 	r.abortPending()
